@@ -366,7 +366,7 @@ def exact_cog_part(R: Run, mods):
         elif k < 0.36:
             A = Affine(A.a, 0, A.c, 0, -A.e, A.f - ny * r)  # south-up
         srcs.append((GeoBox((ny, nx), A, mk_crs(rng, CRS, crs)), crs))
-    for g, src_crs in srcs:
+    for idx, (g, src_crs) in enumerate(srcs):
         if src_crs == "EPSG:3577":
             dsts = ["EPSG:3577", "EPSG:4326", "EPSG:3857", "utm"]
         elif src_crs in ("EPSG:4326", "OGC:CRS84"):
@@ -393,6 +393,10 @@ def exact_cog_part(R: Run, mods):
             mode = rng.choice(["bogus", "auto", "AUTO", "Fit", "Same", "auto ", "FIT"])
         if rng.random() < 0.12:
             shape = rng.choice([(3, 5), 7, (1, 1), 64])
+        if idx < 12:
+            # fixed corner of the option matrix: a shape request together with EVERY kind of resolution= (shape wins)
+            shape = [(3, 5), 7, (2, 2)][idx % 3]
+            mode = [(16.0, -16.0), "auto", "same", "fit", (0.25, -0.25), "AUTO"][idx % 6]
         tight = rng.random() < 0.15
         anchor = rng.choice(anchors)
         tol = rng.choice([0.01, 0.01, 0.125, 0.0])
@@ -425,6 +429,9 @@ def exact_cog_part(R: Run, mods):
             line, bbox = captured_line(mods, g, crs, mode, shape, tight, anchor, tol, rnd, spy)
         except Exception:  # pylint: disable=broad-except
             continue
+        if shape is not None and real and real.startswith("ERR"):
+            R.oracle(False, "shape-request-raises", {"line": line},
+                     f"shape={shape} with resolution={mode!r}: {real} (the resolution is documented as ignored when a shape is given)")
         if shape is not None and real and not real.startswith("ERR"):
             # span / n is not exact in doubles: shape requests are judged by the oracle (float stream)
             shape_oracle(R, shape, box[0][0], tight, anchor, {"line": line}, None, tol)
@@ -487,21 +494,26 @@ def utm_part(R: Run, mods):
     for _ in range(R.pick(40, 400)):
         lon = rng.uniform(-170, 170)
         lat = rng.uniform(-70, 70)
-        w = rng.choice([0.0, 1.0, 4.0, 9.0])
-        poly = geom.box(lon, lat, lon + w, lat + rng.choice([0.5, 2.0]) if w > 0 else lat, "EPSG:4326")
+        w = rng.choice([0.0, 1e-5, 1e-5, 1.0, 4.0, 9.0])
+        if w <= 1e-5 and rng.random() < 0.7:
+            lon = -180 + 6 * rng.randint(1, 59) + rng.choice([-1, 1]) * rng.choice([2e-6, 1e-4])  # next to a zone boundary
+        poly = geom.box(lon, lat, lon + w, lat + (rng.choice([0.5, 2.0]) if w >= 1 else w), "EPSG:4326")
         z = int((lon + 180) // 6) + 1
         zones = sorted({max(1, min(60, z + d)) for d in rng.sample([-1, 0, 1, 2], rng.randint(0, 3))})
         rng.shuffle(zones)
         cands = [CRS(f"EPSG:{(32600 if lat >= 0 else 32700) + zz}") for zz in zones]
         ovl = []
+        big = poly.area > 1e-9
         for c in cands:
-            ovl.append(Fraction((c.valid_region & poly).area / poly.area) if poly.area > 0 else Fraction(0))
-        line = f"c11 pick {list_s([f'{c.epsg};{frac_s(o)}' for c, o in zip(cands, ovl)])} {bool_s(poly.area > 1e-9)}"
+            # the ranking key: overlap fraction, or for point-like polygons whether the valid region contains the location
+            ovl.append(Fraction((c.valid_region & poly).area / poly.area) if big
+                       else Fraction(1 if c.valid_region.contains(poly.centroid) else 0))
+        line = f"c11 pick {list_s([f'{c.epsg};{frac_s(o)}' for c, o in zip(cands, ovl)])} {bool_s(big)}"
         R.corr(line, lambda: str(_pick(poly, list(cands)).epsg), sig=f"pick|n{len(cands)}")
         if cands:
             try:
                 best = _pick(poly, list(cands))
-                if len(cands) > 1 and poly.area > 1e-9:
+                if len(cands) > 1:
                     R.oracle(all(ovl[cands.index(best)] >= o for o in ovl), "pick-best-max-overlap", {"line": line},
                              f"picked EPSG:{best.epsg} with overlap {float(ovl[cands.index(best)]):.3f}, max is {float(max(ovl)):.3f}")
             except Exception as e:  # pylint: disable=broad-except
@@ -985,10 +997,14 @@ def utm_matrix_part(R: Run, mods):
     Affine, GeoBox, ov, M, CRS, norm_crs, _pick, resxy_, xy_, AnchorEnum = mods
     rng = R.rng
     sizes = [(1, 0.5), (6, 1.0), (100, 10.0), (1000, 30.0), (3000, 100.0)]
-    for _ in range(R.pick(54, 420)):
-        npx, res = rng.choice(sizes)
-        off_m = rng.choice([0.1 * res, 0.9 * res, 10 * res, 1000.0]) * rng.choice([1, -1])
-        kind = rng.choice(["zone", "zone", "zone", "equator", "equator", "antimeridian", "limit"])
+    # a fixed core of the matrix (the cells where a wrong pick does not overlap the raster at all: chips a few metres
+    # across, less than a pixel / ten pixels from a boundary) and a random sample of the rest
+    core = [(sz, k * f, kind) for sz in sizes[:3] for kind in ("zone", "equator") for f in (0.9, 10) for k in (1, -1)]
+    cells = core + [None] * R.pick(30, 400)
+    for cell in cells:
+        npx, res = rng.choice(sizes) if cell is None else cell[0]
+        off_m = (rng.choice([0.1 * res, 0.9 * res, 10 * res, 1000.0]) * rng.choice([1, -1])) if cell is None else cell[1] * res
+        kind = rng.choice(["zone", "zone", "zone", "equator", "equator", "antimeridian", "limit"]) if cell is None else cell[2]
         lat = rng.choice([rng.uniform(-70, 75), rng.uniform(-5, 5), 47.3, -33.1])
         lon = -180 + 6 * rng.randint(1, 59) + rng.uniform(0.7, 5.3)
         m_lat = 1 / 110574.0
@@ -997,7 +1013,8 @@ def utm_matrix_part(R: Run, mods):
         elif kind == "equator":
             lat = off_m * m_lat
         elif kind == "antimeridian":
-            half = (npx * res / 2 + abs(off_m) + 1) / (111320.0 * math.cos(math.radians(lat)))
+            # the 0.9 px footprint buffer must not cross +-180 (outside the valid area of the source CRS): 2 px margin
+            half = (npx * res / 2 + abs(off_m) + 2 * res + 1) / (111320.0 * math.cos(math.radians(lat)))
             lon = rng.choice([180 - half, -180 + half])
         else:
             half = (npx * res / 2 + abs(off_m) + 1) * m_lat
